@@ -231,6 +231,7 @@ var allViewCases = viewCases()
 func buildViewSource(vc viewCase, idx int) any {
 	g := vmodel.NewGen(newRand(int64(idx)*13 + 7))
 	g.Exact = true
+	g.Spare = idx%2 == 1 // every other source: lists and texts with spare capacity holding sentinels (a view must not show them)
 	if vc.Dense {
 		g.PSet = 0.95
 		p := g.Struct(vc.Src, 1, true)
@@ -510,10 +511,11 @@ type memberViewCase struct {
 	Form   string // ptr val
 	Helper string // ToItemCollection OnItemCollection OnCollectionIntf
 	N      int
+	Type   string // the type name the value carries: its own, or that of another collection kind (a decoder can leave a page's name on a plain collection)
 }
 
 func (m memberViewCase) String() string {
-	return fmt.Sprintf("%s(%s %s, %d members)", m.Helper, m.Form, m.Kind, m.N)
+	return fmt.Sprintf("%s(%s %s typed %s, %d members)", m.Helper, m.Form, m.Kind, m.Type, m.N)
 }
 
 var memberViewCases = func() []memberViewCase {
@@ -522,7 +524,9 @@ var memberViewCases = func() []memberViewCase {
 		for _, f := range []string{"ptr", "val"} {
 			for _, h := range []string{"ToItemCollection", "OnItemCollection", "OnCollectionIntf"} {
 				for _, n := range []int{0, 1, 3} {
-					out = append(out, memberViewCase{k, f, h, n})
+					for _, tn := range []string{"Collection", "CollectionPage", "OrderedCollection", "OrderedCollectionPage"} {
+						out = append(out, memberViewCase{k, f, h, n, tn})
+					}
 				}
 			}
 		}
@@ -535,7 +539,7 @@ func runMemberView(c *Ctx, mc memberViewCase, idx int) {
 	src := vmodel.Kinds[ki].New()
 	sv := reflect.ValueOf(src).Elem()
 	sv.FieldByName("ID").Set(reflect.ValueOf(vocab.IRI(fmt.Sprintf("https://example.com/col/%d", idx))))
-	sv.FieldByName("Type").Set(reflect.ValueOf(vocab.ActivityVocabularyType(mc.Kind)))
+	sv.FieldByName("Type").Set(reflect.ValueOf(vocab.ActivityVocabularyType(mc.Type)))
 	field := "Items"
 	if strings.HasPrefix(mc.Kind, "Ordered") {
 		field = "OrderedItems"
@@ -597,6 +601,9 @@ func runMemberView(c *Ctx, mc memberViewCase, idx int) {
 		switch {
 		case ci != nil && !vocab.IsNil(ci):
 			listed = ci.Collection()
+			if got, want := ci.GetLink(), sv.FieldByName("ID").Interface().(vocab.IRI); got != want {
+				c.Fail(sig("id"), fmt.Sprintf("%s: the view's id reads %q, the collection's is %q", label, got, want), map[string]any{"case": label})
+			}
 			if int(ci.Count()) != len(members) {
 				c.Fail(sig("count"), fmt.Sprintf("%s: the view counts %d members, the collection holds %d", label, ci.Count(), len(members)), map[string]any{"case": label})
 			}
@@ -649,7 +656,7 @@ func runMemberView(c *Ctx, mc memberViewCase, idx int) {
 func init() {
 	Register(&Prop{
 		ID: "C08",
-		Rule: fmt.Sprintf("every To<T>/On<T> helper (%d) x every source kind (14) x {pointer, value} x {densely populated, sparse, typed with a name of each other family} = %d conversions, enumerated completely; whenever a conversion is accepted and the source kind differs from T: (1) layout rule by reflection: sizeof(T) <= sizeof(S) and every field of T sits at the same offset in S with the same name (Items/OrderedItems excepted) and a representation-compatible type, otherwise it should have been refused; (2) every shared field reads through the view as on the original, and for pointer inputs a write through the view is seen by the original and vice versa; (3) a full read and struct copy through the view on the checkptr build (and ASan in thorough), aborts attributed through the write-ahead record; (4) the member-list views (ToItemCollection, OnItemCollection, OnCollectionIntf) of the four collection kinds x {pointer, value} x {no, one, three members}: what the view lists is what the collection's own member property holds, in order, and for pointer inputs appending and replacing through the view is seen by the collection and the other way round; distinct = conversion; non-trivial = accepted conversions between different kinds",
+		Rule: fmt.Sprintf("every To<T>/On<T> helper (%d) x every source kind (14) x {pointer, value} x {densely populated, sparse, typed with a name of each other family} = %d conversions, enumerated completely; whenever a conversion is accepted and the source kind differs from T: (1) layout rule by reflection: sizeof(T) <= sizeof(S) and every field of T sits at the same offset in S with the same name (Items/OrderedItems excepted) and a representation-compatible type, otherwise it should have been refused; (2) every shared field reads through the view as on the original, and for pointer inputs a write through the view is seen by the original and vice versa; (3) a full read and struct copy through the view on the checkptr build (and ASan in thorough), aborts attributed through the write-ahead record; (4) the member-list views (ToItemCollection, OnItemCollection, OnCollectionIntf) of the four collection kinds x the four collection type names x {pointer, value} x {no, one, three members}: what the view lists is what the collection's own member property holds, in order, and for pointer inputs appending and replacing through the view is seen by the collection and the other way round; distinct = conversion; non-trivial = accepted conversions between different kinds",
 			len(allViewHelpers), len(allViewCases)),
 		Builds: func(tier string) []string {
 			if tier == "thorough" {
